@@ -46,9 +46,9 @@ def check_one(case, ctx, deep):
             c = by[i]
             wo = tuple(case['o'][t] for t in objs_at.get(i, ()))
             wp = tuple(case['p'][t] for t in props_at.get(i, ()))
-            ctx.check(tuple(c.objects) == wo and isinstance(c.objects, tuple), 'objects-label', plain,
+            ctx.check(tuple(c.objects) == wo, 'objects-label', plain,
                       lambda: f'concept {c.extent}: objects label {c.objects!r}, want {wo!r}')
-            ctx.check(tuple(c.properties) == wp and isinstance(c.properties, tuple), 'properties-label', plain,
+            ctx.check(tuple(c.properties) == wp, 'properties-label', plain,
                       lambda: f'concept {c.extent}: properties label {c.properties!r}, want {wp!r}')
             down = ref.downset(i)
             up = ref.upset(i)
